@@ -92,6 +92,20 @@ CutScope(s, seen) ==
          ELSE IF it.e = "ans" /\ seen THEN <<it>>
          ELSE <<it>> \o CutScope(Tail(s), seen)
 
+(* A compound goal (conjunction, disjunction) in which a cut has executed is an   *)
+(* ANCESTOR of that cut: backtracking into it is disabled, so it gives its parent  *)
+(* no solution beyond the first one that follows the cut.  The cut marks are kept  *)
+(* (the cut goes on to the enclosing goals, up to the call).  This is what makes   *)
+(* `(!, q($X)), r($X)` differ from `!, q($X), r($X)`: in the first, q cannot be    *)
+(* re-tried when r fails, because q lives inside the frozen nested conjunction.    *)
+RECURSIVE Frozen(_, _)
+Frozen(s, seen) ==
+    IF s = <<>> THEN <<>>
+    ELSE LET it == Head(s) IN
+         IF it.e = "cut" THEN <<it>> \o Frozen(Tail(s), TRUE)
+         ELSE IF it.e = "ans" /\ seen THEN <<it>>
+         ELSE <<it>> \o Frozen(Tail(s), seen)
+
 (* the events of s before its first answer, and whether there is one          *)
 RECURSIVE BeforeAns(_)
 BeforeAns(s) == IF s = <<>> \/ Head(s).e = "ans" THEN <<>> ELSE <<Head(s)>> \o BeforeAns(Tail(s))
@@ -107,8 +121,8 @@ Run(P, g, b, n, d) ==
                  IF r.st = "out" THEN <<OverE>>
                  ELSE (IF r.out # "" THEN <<OutE(r.out)>> ELSE <<>>)
                       \o (IF r.st = "ok" THEN <<AnsE(r.b, n)>> ELSE <<>>)
-      [] g.g = "and"  -> RunAnd(P, g.gs, b, n, d)
-      [] g.g = "or"   -> RunOr(P, g.gs, b, n, d)
+      [] g.g = "and"  -> Frozen(RunAnd(P, g.gs, b, n, d), FALSE)
+      [] g.g = "or"   -> Frozen(RunOr(P, g.gs, b, n, d), FALSE)
       [] g.g = "not"  -> LET s == Run(P, g.gs[1], b, n, d)
                              pre == BeforeAns(s) IN
                          IF HasE(pre, "over") \/ HasE(pre, "cut") THEN <<OverE>>   \* cut inside not: no claim
